@@ -513,6 +513,19 @@ func (ctx *RenderContext) CallFunction(name string, args []interface{}) (interfa
 	return nil, fmt.Errorf("function '%s' not found", name)
 }
 
+// hashKeyOrder returns the keys of a hash literal in source order. A node built without that
+// information (NewHashNode) has no source order; its keys are taken as the map yields them.
+func hashKeyOrder(n *HashNode) []Node {
+	if len(n.order) >= len(n.items) {
+		return n.order
+	}
+	keys := make([]Node, 0, len(n.items))
+	for k := range n.items {
+		keys = append(keys, k)
+	}
+	return keys
+}
+
 // callRangeFunction implements the range function
 func (ctx *RenderContext) callRangeFunction(args []interface{}) (interface{}, error) {
 	if len(args) < 2 {
@@ -836,7 +849,10 @@ func (ctx *RenderContext) EvaluateExpression(node Node) (interface{}, error) {
 		// We can't use pooling with defer here because the map is returned directly
 		result := make(map[string]interface{}, len(n.items))
 
-		for k, v := range n.items {
+		// Pairs are evaluated and stored in source order, so that with equal keys the last one
+		// written wins and the first failing pair is the one reported
+		for _, k := range hashKeyOrder(n) {
+			v := n.items[k]
 			// Evaluate the key
 			keyVal, err := ctx.EvaluateExpression(k)
 			if err != nil {
